@@ -1320,9 +1320,10 @@ def compile_match_expression(compiler, expr, root, subject, clauses):
             )
         )
 
+    return_expr = asty.Name(expr, id=return_var.id, ctx=ast.Load())
     returnable = Result(
-        expr=asty.Name(expr, id=return_var.id, ctx=ast.Load()),
-        temp_variables=[return_var],
+        expr=return_expr,
+        temp_variables=[return_var, return_expr],
     )
     ret = Result() + subject
     ret += asty.Assign(
@@ -1550,9 +1551,10 @@ def compile_try_expression(compiler, expr, root, body, catchers, orelse, finalbo
         finalbody += finalbody.expr_as_stmt()
         finalbody = finalbody.stmts
 
+    return_expr = asty.Name(expr, id=return_var.id, ctx=ast.Load())
     returnable = Result(
-        expr=asty.Name(expr, id=return_var.id, ctx=ast.Load()),
-        temp_variables=[return_var],
+        expr=return_expr,
+        temp_variables=[return_var, return_expr],
     )
     body += (
         body.expr_as_stmt()
